@@ -463,3 +463,30 @@ Qed.
 
 Lemma xmr_s_limit : exists j, to_json_xmr_s (- 2 ^ 63) = AOk j /\ of_json_xmr_s j = None.
 Proof. exists (JStr (bs "-9223372.036854775808"%string)). split; vm_compute; reflexivity. Qed.
+
+(* serialising never panics, over the whole range of the two amount types (also where as_xmr will not read back) *)
+Definition amt_in_type (sg : bool) (a : Z) : Prop :=
+  if sg then - 2 ^ 63 <= a <= 2 ^ 63 - 1 else 0 <= a <= 2 ^ 64 - 1.
+
+Lemma amt_total sg k a : amt_in_type sg a -> exists j, to_json_amt sg k a = AOk j /\ j <> JNull.
+Proof.
+  destruct k; cbn [to_json_amt]; [intros _; exists (JNum a); split; [reflexivity|discriminate]|].
+  destruct sg; cbn [amt_in_type]; intros Ha.
+  - destruct (signed_format_exact a Monero Ha) as (s & E & _). exists (JStr s).
+    unfold to_json_xmr_s. rewrite E. split; [reflexivity|discriminate].
+  - destruct (amount_format_exact a Monero Ha) as (s & E & _). exists (JStr s).
+    unfold to_json_xmr_u. rewrite E. split; [reflexivity|discriminate].
+Qed.
+
+Lemma amt_opt_vec_total sg k :
+  (forall o, wf_opt (amt_in_type sg) o -> exists j, to_json_amt_opt sg k o = AOk j) /\
+  (forall l, Forall (amt_in_type sg) l -> exists j, to_json_amt_vec sg k l = AOk j).
+Proof.
+  split.
+  - intros [a|] Ho; [|now exists JNull]. destruct (amt_total sg k a Ho) as (j & E & _). now exists j.
+  - intros l Hl. unfold to_json_amt_vec, to_json_vec_ares.
+    assert (Hm : exists js, amapM (to_json_amt sg k) l = AOk js).
+    { induction Hl as [|a l Ha _ (js & E)]; [now exists []|].
+      destruct (amt_total sg k a Ha) as (j & F & _). exists (j :: js). cbn [amapM]. rewrite F. cbn [abind]. now rewrite E. }
+    destruct Hm as (js & E). exists (JArr js). now rewrite E.
+Qed.
